@@ -72,7 +72,7 @@ C++ plug-in's service check (and has at least one method per service, the gramma
 that are no declared structs, although the schema was accepted) -/
 theorem C03_accepted_generates (fuel : Nat) (S : Schema) (h : verifyModel .cpp fuel S = .ok ())
     (hm : ∀ sv ∈ S.services, sv.methods ≠ []) : (Rpc.rpc S).isSome :=
-  Rpc.rpc_total S ((verify_iff_cpp fuel S).mp h).2 hm
+  Rpc.rpc_total S ((verify_iff_cpp fuel S).mp h).2.2 hm
 
 /-- non-vacuity: one service, one struct used as input and as output, both wrappers present -/
 def C03_rpcS : Schema := {
